@@ -1,5 +1,5 @@
 #!/usr/bin/env bash
 # libFuzzer campaign for C02 (target props_tree: runtime trees only, semantic oracle in the target: c02::fuzz_entry).
-# The oracle probes every key ~30 ways, ~0.55 k exec/s under ASan on one core: quick 14 k runs (~25 s), thorough
+# The oracle probes every key ~30 ways, ~0.55 k exec/s under ASan on one core: quick 11 k runs (~25 s), thorough
 # 3 M runs over 12 jobs.
-exec "$(dirname "$0")/../../tools/fuzz_campaign.sh" C02 props_tree "$1" "$2" 14000 3000000 512
+exec "$(dirname "$0")/../../tools/fuzz_campaign.sh" C02 props_tree "$1" "$2" 11000 3000000 512
